@@ -205,3 +205,140 @@ def shared_nonroot_expressions(parser_model):
             objs[id(c)] = c
             todo.append(c)
     return {k for k, ps in parents.items() if len(ps) > 1 and not getattr(objs[k], 'root', False)}
+
+
+# ---------------------------------------------------------------------------------------------------------------
+# "explained-by" classification of recorded Arpeggio mechanisms: run textX once more with exactly that mechanism
+# repaired in Arpeggio (harness-side, never in the repository or the installed package). A divergence from the
+# reference interpreter is attributed to the mechanism only if it disappears under the repair.
+class arpeggio_repaired:
+    """mechs: 'falsy-result' - OrderedChoice takes an alternative that matched with nothing to report (suppressed match,
+    unmatched optional, predicate) for a failure and goes on WITHOUT restoring the position; repetitions stop at the
+    first iteration with a falsy result even if it consumed input.
+    'eolterm-ws-restore' - Sequence/OrderedChoice save Parser.ws (the newline-stripped set while an eolterm repetition
+    is active) on entry of a rule with a ws= modifier and write it back on exit."""
+
+    def __init__(self, mechs):
+        self.mechs = set(mechs)
+        self.saved = []
+
+    def __enter__(self):
+        import arpeggio
+        from arpeggio import NoMatch
+        falsy = 'falsy-result' in self.mechs
+        wsr = 'eolterm-ws-restore' in self.mechs
+
+        def cur_ws(parser):
+            return parser._real_ws if wsr and hasattr(parser, '_real_ws') else parser.ws
+
+        def seq_parse(self, parser):
+            results = []
+            c_pos = parser.position
+            if self.ws is not None:
+                old_ws = cur_ws(parser)
+                parser.ws = self.ws
+            if self.skipws is not None:
+                old_skipws = parser.skipws
+                parser.skipws = self.skipws
+            try:
+                for e in self.nodes:
+                    result = e.parse(parser)
+                    if result:
+                        results.append(result)
+            except NoMatch:
+                parser.position = c_pos
+                raise
+            finally:
+                if self.ws is not None:
+                    parser.ws = old_ws
+                if self.skipws is not None:
+                    parser.skipws = old_skipws
+            if results:
+                return results
+
+        def oc_parse(self, parser):
+            result = None
+            match = False
+            c_pos = parser.position
+            if self.ws is not None:
+                old_ws = cur_ws(parser)
+                parser.ws = self.ws
+            if self.skipws is not None:
+                old_skipws = parser.skipws
+                parser.skipws = self.skipws
+            try:
+                for e in self.nodes:
+                    try:
+                        result = e.parse(parser)
+                        if result is not None:
+                            match = True
+                            result = [result]
+                            break
+                        if falsy:
+                            # matched, nothing to report: the choice is decided
+                            match = True
+                            break
+                    except NoMatch:
+                        parser.position = c_pos
+            finally:
+                if self.ws is not None:
+                    parser.ws = old_ws
+                if self.skipws is not None:
+                    parser.skipws = old_skipws
+            if not match:
+                parser._nm_raise(self, c_pos, parser)
+            return result
+
+        def rep_parse(one_or_more):
+            def _parse(self, parser):
+                results = []
+                first = True
+                if self.eolterm:
+                    old_eolterm = parser.eolterm
+                    parser.eolterm = self.eolterm
+                p = self.nodes[0].parse
+                sep = self.sep.parse if self.sep else None
+                n = 0
+                try:
+                    while True:
+                        try:
+                            c_pos = parser.position
+                            if sep and n:
+                                sep_result = sep(parser)
+                                if sep_result:
+                                    results.append(sep_result)
+                            result = p(parser)
+                            if parser.position == c_pos:
+                                break           # no progress
+                            if result:
+                                results.append(result)
+                            n += 1
+                            first = False
+                        except NoMatch:
+                            parser.position = c_pos
+                            if first and one_or_more:
+                                raise
+                            break
+                finally:
+                    if self.eolterm:
+                        parser.eolterm = old_eolterm
+                return results
+            return _parse
+        todo = []
+        if wsr:
+            todo.append((arpeggio.Sequence, seq_parse))
+        if wsr or falsy:
+            todo.append((arpeggio.OrderedChoice, oc_parse))
+        if falsy:
+            todo.append((arpeggio.ZeroOrMore, rep_parse(False)))
+            todo.append((arpeggio.OneOrMore, rep_parse(True)))
+        for cls, fn in todo:
+            self.saved.append((cls, cls.__dict__['_parse']))
+            cls._parse = fn
+        return self
+
+    def __exit__(self, *a):
+        for cls, fn in self.saved:
+            cls._parse = fn
+        self.saved = []
+        return False
